@@ -1,7 +1,7 @@
 // C04 - established channels deliver every envelope exactly once, intact, in
 // order. Real client and server channels over the in-process transport and
 // over the real TCP transport on virtual pipes (tiny and large buffers);
-// concurrent senders in both directions, one draining consumer per side (in the slow-consumer scenarios the server's starts 7 s late, longer than any transport I/O timeout); all
+// concurrent senders in both directions, one draining consumer per side (in the slow-consumer scenarios the server's starts 22 s late, several transport I/O timeouts long); all
 // workloads (kinds, sizes) as data choices x all schedules within the
 // deviation bound; oracle = per-(sender,kind) FIFO multiset model.
 package main
@@ -144,9 +144,9 @@ func body(kind string, pipeCap int, twoClientSenders, slowConsumer bool) func(x 
 		go consume(ctx, x, &s.cli, cc)
 		go func() {
 			if slowConsumer {
-				// "any handler speed": the server application is busy for a while (longer than
-				// any I/O timeout of the transports) before it looks at its inbound streams
-				time.Sleep(7 * time.Second)
+				// "any handler speed": the server application is busy for a while (several I/O
+				// timeouts of the transports long) before it looks at its inbound streams
+				time.Sleep(22 * time.Second)
 				x.Obs("server consumer starts late")
 			}
 			consume(ctx, x, &s.srv, sc)
@@ -170,7 +170,7 @@ func body(kind string, pipeCap int, twoClientSenders, slowConsumer bool) func(x 
 			time.Sleep(12 * time.Second)
 		}
 		if slowConsumer {
-			time.Sleep(12 * time.Second)
+			time.Sleep(24 * time.Second)
 		}
 		rt.Quiesce()
 		rt.EndExplore()
